@@ -39,6 +39,7 @@ type valCase struct {
 	Spec    string      `json:"spec"`
 	Custom  *customCaps `json:"custom"`
 	Extra   bool        `json:"extraflag"` // also declare a plain bool option -x (clusters, groups)
+	Conv    bool        `json:"conv"`      // declare through the convenience methods (BoolOpt(name, value, desc), ...Ptr): no env, no SetByUser
 }
 
 type valResult struct {
@@ -225,8 +226,12 @@ func runValues(c valCase) (r valResult) {
 			}
 		}
 	}()
-	switch c.Type {
-	case "bool":
+	if c.Conv {
+		read = declConv(app.Cmd, c, opt)
+	}
+	switch {
+	case c.Conv:
+	case c.Type == "bool":
 		d, _ := c.Default.(bool)
 		var p *bool
 		if opt {
@@ -247,7 +252,7 @@ func runValues(c valCase) (r valResult) {
 			}
 		}
 		read = func() []string { return []string{strconv.FormatBool(*p)} }
-	case "string":
+	case c.Type == "string":
 		d, _ := c.Default.(string)
 		var p *string
 		if opt {
@@ -268,7 +273,7 @@ func runValues(c valCase) (r valResult) {
 			}
 		}
 		read = func() []string { return []string{*p} }
-	case "int":
+	case c.Type == "int":
 		f, _ := c.Default.(float64)
 		d := int(f)
 		var p *int
@@ -290,7 +295,7 @@ func runValues(c valCase) (r valResult) {
 			}
 		}
 		read = func() []string { return []string{strconv.Itoa(*p)} }
-	case "float":
+	case c.Type == "float":
 		d, _ := c.Default.(float64)
 		var p *float64
 		if opt {
@@ -311,7 +316,7 @@ func runValues(c valCase) (r valResult) {
 			}
 		}
 		read = func() []string { return []string{canonFloat(*p)} }
-	case "strings":
+	case c.Type == "strings":
 		d := toStrings(c.Default)
 		var p *[]string
 		if opt {
@@ -332,7 +337,7 @@ func runValues(c valCase) (r valResult) {
 			}
 		}
 		read = func() []string { return append([]string{}, (*p)...) }
-	case "ints":
+	case c.Type == "ints":
 		var d []int
 		for _, s := range toStrings(c.Default) {
 			i, _ := strconv.Atoi(s)
@@ -363,7 +368,7 @@ func runValues(c valCase) (r valResult) {
 			}
 			return res
 		}
-	case "floats":
+	case c.Type == "floats":
 		var d []float64
 		for _, s := range toStrings(c.Default) {
 			f, _ := strconv.ParseFloat(s, 64)
@@ -394,7 +399,7 @@ func runValues(c valCase) (r valResult) {
 			}
 			return res
 		}
-	case "custom":
+	case c.Type == "custom":
 		v := mkCustom(*c.Custom, &log)
 		if opt {
 			app.Var(cli.VarOpt{Name: "o opt", Value: v, EnvVar: envList, SetByUser: &sbu})
@@ -425,4 +430,134 @@ func runValues(c valCase) (r valResult) {
 		r.SBU = sbu
 	}
 	return
+}
+
+// declConv declares the variable through the convenience methods of options.go / args.go
+func declConv(cmd *cli.Cmd, c valCase, opt bool) func() []string {
+	name := "A"
+	if opt {
+		name = "o opt"
+	}
+	switch c.Type {
+	case "bool":
+		d, _ := c.Default.(bool)
+		p := new(bool)
+		switch {
+		case opt && c.Ptr:
+			cmd.BoolOptPtr(p, name, d, "")
+		case opt:
+			p = cmd.BoolOpt(name, d, "")
+		case c.Ptr:
+			cmd.BoolArgPtr(p, name, d, "")
+		default:
+			p = cmd.BoolArg(name, d, "")
+		}
+		return func() []string { return []string{strconv.FormatBool(*p)} }
+	case "string":
+		d, _ := c.Default.(string)
+		p := new(string)
+		switch {
+		case opt && c.Ptr:
+			cmd.StringOptPtr(p, name, d, "")
+		case opt:
+			p = cmd.StringOpt(name, d, "")
+		case c.Ptr:
+			cmd.StringArgPtr(p, name, d, "")
+		default:
+			p = cmd.StringArg(name, d, "")
+		}
+		return func() []string { return []string{*p} }
+	case "int":
+		f, _ := c.Default.(float64)
+		d := int(f)
+		p := new(int)
+		switch {
+		case opt && c.Ptr:
+			cmd.IntOptPtr(p, name, d, "")
+		case opt:
+			p = cmd.IntOpt(name, d, "")
+		case c.Ptr:
+			cmd.IntArgPtr(p, name, d, "")
+		default:
+			p = cmd.IntArg(name, d, "")
+		}
+		return func() []string { return []string{strconv.Itoa(*p)} }
+	case "float":
+		d, _ := c.Default.(float64)
+		p := new(float64)
+		switch {
+		case opt && c.Ptr:
+			cmd.Float64OptPtr(p, name, d, "")
+		case opt:
+			p = cmd.Float64Opt(name, d, "")
+		case c.Ptr:
+			cmd.Float64ArgPtr(p, name, d, "")
+		default:
+			p = cmd.Float64Arg(name, d, "")
+		}
+		return func() []string { return []string{canonFloat(*p)} }
+	case "strings":
+		d := toStrings(c.Default)
+		p := new([]string)
+		switch {
+		case opt && c.Ptr:
+			cmd.StringsOptPtr(p, name, d, "")
+		case opt:
+			p = cmd.StringsOpt(name, d, "")
+		case c.Ptr:
+			cmd.StringsArgPtr(p, name, d, "")
+		default:
+			p = cmd.StringsArg(name, d, "")
+		}
+		return func() []string { return append([]string{}, (*p)...) }
+	case "ints":
+		var d []int
+		for _, s := range toStrings(c.Default) {
+			i, _ := strconv.Atoi(s)
+			d = append(d, i)
+		}
+		p := new([]int)
+		switch {
+		case opt && c.Ptr:
+			cmd.IntsOptPtr(p, name, d, "")
+		case opt:
+			p = cmd.IntsOpt(name, d, "")
+		case c.Ptr:
+			cmd.IntsArgPtr(p, name, d, "")
+		default:
+			p = cmd.IntsArg(name, d, "")
+		}
+		return func() []string {
+			res := []string{}
+			for _, i := range *p {
+				res = append(res, strconv.Itoa(i))
+			}
+			return res
+		}
+	case "floats":
+		var d []float64
+		for _, s := range toStrings(c.Default) {
+			f, _ := strconv.ParseFloat(s, 64)
+			d = append(d, f)
+		}
+		p := new([]float64)
+		switch {
+		case opt && c.Ptr:
+			cmd.Floats64OptPtr(p, name, d, "")
+		case opt:
+			p = cmd.Floats64Opt(name, d, "")
+		case c.Ptr:
+			cmd.Floats64ArgPtr(p, name, d, "")
+		default:
+			p = cmd.Floats64Arg(name, d, "")
+		}
+		return func() []string {
+			res := []string{}
+			for _, f := range *p {
+				res = append(res, canonFloat(f))
+			}
+			return res
+		}
+	}
+	panic("harness: no convenience method for type " + c.Type)
 }
